@@ -1241,7 +1241,7 @@ func genC05(g *h.G) {
 	for i := 0; i < 40; i++ {
 		g.Emit("hm.minbits", strconv.FormatUint(g.U64(), 10))
 	}
-	nMaps := g.Scale(2000, 30000)
+	nMaps := g.Scale(2000, 60000)
 	for i := 0; i < nMaps; i++ {
 		genOneMap(g)
 	}
